@@ -371,6 +371,9 @@ fn u256_idiv_u128_special(xh: &mut u128, xl: &mut u128, mut y: u128) -> u128 {
         #[cfg(feature = "verif-hooks")]
         {
             vh_n_dec += 1;
+            if q1 > B {
+                verif::hit(verif::KNUTH_Q1_EST_GT_B);
+            }
         }
         q1 -= 1;
         rhat += yn1;
@@ -415,6 +418,9 @@ fn u256_idiv_u128_special(xh: &mut u128, xl: &mut u128, mut y: u128) -> u128 {
         #[cfg(feature = "verif-hooks")]
         {
             vh_n_dec += 1;
+            if q0 > B {
+                verif::hit(verif::KNUTH_Q0_EST_GT_B);
+            }
         }
         q0 -= 1;
         rhat += yn1;
